@@ -210,9 +210,9 @@ fn arb_root(depth: u32) -> BoxedStrategy<Root> {
 	let boxed: BoxedStrategy<Option<Box<Root>>> = if depth == 0 { Just(None).boxed() } else { prop_oneof![3 => Just(None), 1 => arb_root(depth - 1).prop_map(|r| Some(Box::new(r)))].boxed() };
 	(
 		(edge(any::<i64>().boxed(), vec![i64::MIN, i64::MAX]).prop_map(Newtype), (any::<u8>(), arb_str(), arb_f64()).prop_map(|(a, b, c)| TupleStruct(a, b, c)), arb_ints()),
-		(proptest::collection::vec(arb_f32(), 0..4), prop_oneof![6 => proptest::collection::vec(arb_f64(), 0..5), 1 => proptest::collection::vec(arb_f64(), 20..60)], arb_char(), prop_oneof![6 => arb_str(), 1 => proptest::collection::vec(gen::arb_char(), 40..200).prop_map(|v| v.into_iter().collect::<String>())]),
+		(proptest::collection::vec(arb_f32(), 0..4), prop_oneof![6 => proptest::collection::vec(arb_f64(), 0..5), 1 => proptest::collection::vec(arb_f64(), 20..300)], arb_char(), prop_oneof![6 => arb_str(), 1 => proptest::collection::vec(gen::arb_char(), 40..200).prop_map(|v| v.into_iter().collect::<String>())]),
 		(proptest::option::of(arb_ints()), proptest::option::of(arb_str()), boxed, proptest::collection::vec(arb_e(), 0..4)),
-		((any::<bool>(), arb_str()), (any::<u8>(), any::<i8>(), arb_char()), proptest::collection::vec(proptest::collection::vec(any::<i32>(), 0..3), 0..3), arb_maps(), arb_unit_only()),
+		((any::<bool>(), arb_str()), (any::<u8>(), any::<i8>(), arb_char()), prop_oneof![8 => proptest::collection::vec(proptest::collection::vec(any::<i32>(), 0..3), 0..3), 1 => proptest::collection::vec(proptest::collection::vec(any::<i32>(), 0..100), 60..140)], arb_maps(), arb_unit_only()),
 	)
 		.prop_map(|((newtype, tuple_struct, ints), (f32s, f64s, c, s), (opt, opt_str, boxed, enums), (pair, triple, nested_seq, maps, unit_variant))| Root {
 			unit: (),
